@@ -20,7 +20,7 @@
 (* Every state carries num/den (exact numerators and the common denominator  *)
 (* of P) so that the state dump is the replay oracle for the real code.      *)
 (***************************************************************************)
-EXTENDS Integers, Sequences, FiniteSets, TLC, Rat
+EXTENDS Integers, Sequences, FiniteSets, TLC, Rat, PermOps
 
 CONSTANTS N,          \* number of ensembles, >= 2  (N-1 plus ensembles)
           MaxW,       \* largest weight value
@@ -40,18 +40,6 @@ vars == <<W, L, num, den>>
 Idle(l) == Ens \ l
 
 ---------------------------------------------------------------------------
-(* permanent of w restricted to rows R and columns C, |R| = |C| *)
-RECURSIVE PermRC(_, _, _)
-PermRC(w, R, C) ==
-  IF R = {} THEN 1 ELSE
-  LET i == CHOOSE x \in R : \A y \in R : x <= y
-      RECURSIVE S(_)
-      S(T) == IF T = {} THEN 0 ELSE
-              LET j == CHOOSE x \in T : TRUE IN
-              (IF w[i][j] = 0 THEN 0 ELSE w[i][j] * PermRC(w, R \ {i}, C \ {j}))
-              + S(T \ {j})
-  IN S(C)
-
 PDen(w, l) == PermRC(w, Idle(l), Idle(l))
 PNum(w, l) == [i \in Ens |-> [j \in Ens |->
                  IF i \in l \/ j \in l \/ w[i][j] = 0 THEN 0
